@@ -293,7 +293,7 @@ META = {
         "level": "exploration",
         "evaluations": ["ranges8", "band_ranges", "float_band_runs", "float_ulp_ranges", "edge_ranges", "fresh_pairs", "concurrent_fresh_rounds"],
         "required": ["ranges8", "band_ranges", "float_band_runs", "float_ulp_ranges", "stored_makecheck_triples", "kind_forms", "fresh_pairs_with_stale_fail_file", "edge_ranges", "fresh_pairs", "concurrent_fresh_rounds", "bands_required", "edges_required",
-                     "fresh_sequences_compared_across_processes"],
+                     "fresh_sequences_compared_across_processes", "fresh_pairs_after_math_rand_seed"],
         "show": ["ranges8", "band_ranges", "bands_required", "float_ulp_ranges", "max:draws_to_cover_float_ulp_range", "edge_ranges", "draws", "max:draws_to_cover_8bit_range", "max:draws_to_hit_all_bands",
                  "max:draws_to_hit_edges", "concurrent_checks", "fresh_sequences_compared_across_processes"],
         "rule": "(a) 8-bit ranges [a,b] of Uint8Range/Int8Range (ByteRange sampled): draw until every value was seen, cap 2*10^5 (quick: every 16th range, "
@@ -435,6 +435,7 @@ _MORE10 = {
     "C14": "In a fifth of the scenarios the workers use a lock of the user's own: held around the non-logging methods of T, and taken by the String method of a value passed to Log/Logf/Errorf (lock order: user lock, then T's; a library that formats arguments while holding T's lock deadlocks, which the hang watchdog reports).",
     "C12": "Two more ways of failing: a panic with a freshly allocated wrapped error and with a pointer to a struct holding further pointers (same text in every execution, other addresses).",
     "C15": "Family fuzz-target: ONE function returned by MakeFuzz is called from 6-15 parallel sub-tests at once, each with its own input (a recording made alone on an equal tree); status and draws of every call are those of a replay of its input. After every round the description (String) of the shared generator and of every generator the checks built on it must equal that of a freshly built equal tree. Family failing-together: 3-7 FAILING checks (a threshold each) at once over one shared generator on same-named test objects; each executes exactly the test cases (search, reproduction, every minimisation attempt, final replay) it executes alone.",
+    "C18": "Freshness also after the test binary has seeded the global math/rand source itself (rand.Seed(42) before each of two Checks).",
     "C17": "The descriptor-limited child plants 800 unusable entries (empty files, directories, binary files starting with control bytes, text) in front of the usable one and its property opens files of its own. In the explicit families a problem with a fail file must never be an ERROR of the test.",
     "C11": "Family shared-skip-site: non-fatal failure when a > ta, then ONE Skip statement reached when b > tb by failing and non-failing cases alike; the test case presented after minimisation must be one that signalled (C01 oracle). Family deep-abandon: a 600-case Check in which every second test case is abandoned 8-16 generator levels deep; the property never signals a failure and must pass.",
     "C13": "One input in seven is TEXT (the text of a well-formed fail file of this version holding a recording of the same property, a go fuzz corpus header, hex lines, JSON): bytes like any others.",
